@@ -27,6 +27,11 @@ type hop struct {
 	f func(m message.Message, p *refcodec.Packet)
 }
 
+// canary bytes behind a decoded packet in the caller's buffer; lastBacking is the buffer of the
+// start object built last (nil when the start is not a decoded object)
+var canary = []byte{0xC7, 0x3C, 0xC7, 0x3C, 0xC7, 0x3C, 0xC7, 0x3C}
+var lastBacking []byte
+
 type hstart struct {
 	name string
 	mk   func() (message.Message, *refcodec.Packet)
@@ -38,12 +43,17 @@ func decodedStart(p *refcodec.Packet, clone bool) hstart {
 		name = "clone-of-" + name
 	}
 	return hstart{name, func() (message.Message, *refcodec.Packet) {
-		wire := refcodec.Encode(p)
+		// the packet sits in a larger buffer (as in a stream: the next packet follows); Decode is
+		// given the packet's bytes only, what lies behind them is not the object's to touch
+		backing := append(refcodec.Encode(p), canary...)
+		wire := backing[:len(backing)-len(canary)]
+		lastBacking = backing
 		m := newMsg(p.Type)
 		if _, err := m.Decode(wire); err != nil {
 			panic("reference encoding rejected: " + err.Error())
 		}
 		if clone {
+			lastBacking = nil
 			c, err := m.(*message.PublishMessage).Clone()
 			if err != nil {
 				panic("clone: " + err.Error())
@@ -511,6 +521,7 @@ func setterHistories(e *enumCtx, thorough bool) {
 				}
 				if e.mine() {
 					message.VerifSetPacketIDCounter(0)
+					lastBacking = nil
 					m, model := st.mk()
 					calls := make([]string, len(idx))
 					panicked := false
@@ -527,6 +538,10 @@ func setterHistories(e *enumCtx, thorough bool) {
 						}
 					}()
 					if panicked {
+						return
+					}
+					if lb := lastBacking; lb != nil && !bytes.Equal(lb[len(lb)-len(canary):], canary) {
+						e.fail(fam.typ, "history/"+strip(st.name), fmt.Sprintf("setters on a decoded object wrote into the caller's buffer behind the decoded packet: the %d bytes following it are now %x, were %x", len(canary), lb[len(lb)-len(canary):], canary), map[string]interface{}{"start": st.name, "calls": strings.Join(calls, "; ")})
 						return
 					}
 					e.c.Rep.Executions++
